@@ -181,6 +181,7 @@ def _lut_case(args):
     rs = np.random.RandomState(1)
     P, kinds = probes_lut_space(lut, rs, max_simp)
     cnt = 0
+    nt = 0
     for ci in cfg_idx:
         cfg = CONFIGS[ci]
         w, q, px, eta = (cfg["channel_width"], cfg["flow_rate"],
@@ -210,6 +211,7 @@ def _lut_case(args):
         dist = hull_distance(tri, qn)
         clear = (dist > 1e-5) & ~amb   # not within rounding of the hull
         cnt += int(clear.sum())
+        nt += int((clear & ~np.isnan(exp)).sum())   # inside the support
         nan_mis = clear & (np.isnan(got) != np.isnan(exp))
         both = clear & ~np.isnan(got) & ~np.isnan(exp)
         val_mis = both & ~np.isclose(got, exp, rtol=1e-9, atol=1e-12)
@@ -228,7 +230,7 @@ def _lut_case(args):
                     f"{int(clear.sum())} probes; first: {kinds[i]} at "
                     f"({xd[i]!r}, {dd[i]!r}): got {got[i]!r} expected "
                     f"{exp[i]!r}", dict(tags, probe=str(kinds[i]))))
-    return cnt, out
+    return cnt, out, nt
 
 
 def _resolve_lut(lut_id, scratch):
@@ -418,10 +420,12 @@ def run(ctx):
     res += par.pmap(_replace_case, [(scratch,)])
     viols = []
     cnt = 0
-    for c, vs in res:
-        cnt += c
-        viols.extend(vs)
-    cov = {"evaluations": cnt, "distinct_nontrivial": cnt,
+    nontriv = 0
+    for r in res:
+        cnt += r[0]
+        viols.extend(r[1])
+        nontriv += r[2] if len(r) > 2 else r[0]
+    cov = {"evaluations": cnt, "distinct_nontrivial": nontriv,
            "luts": LUTS, "configurations": len(CONFIGS),
            "rule": "probe points = every LUT node, every Delaunay simplex "
                    "(centroid + 3 edge mid-points), every hull edge "
@@ -429,7 +433,9 @@ def run(ctx):
                    "mapped into the data space of each of 16 set-up "
                    "configurations (channel width x flow rate x pixel size "
                    "x viscosity); probes within 1e-5 (normalised units) of the hull are not "
-                   "counted; plus laws, all 63 batch subsets, all ordered "
+                   "counted; non-trivial = probe whose reference value is "
+                   "finite, i.e. inside the support (law / batch / "
+                   "replacement cases use interior points only); plus laws, all 63 batch subsets, all ordered "
                    "call pairs of 6 configurations, temperature forms",
            "samples": [{"lut": "builtin:LE-2D-FEM-19", "cfg": CONFIGS[5]},
                        {"law": "not-invariant-under-rescaling", "s": 1.5},
@@ -450,7 +456,7 @@ def replay(case, ctx):
         _, vs = _replace_case((ctx.scratch,))
         return [v for v in vs if v["case"].get("how") == case.get("how")]
     if case["kind"] == "lut":
-        _, vs = _lut_case((case["lut"], [case["cfg"]], None, ctx.scratch))
+        _, vs, _ = _lut_case((case["lut"], [case["cfg"]], None, ctx.scratch))
         return vs
     _, vs = _law_case((case["lut"], ctx.scratch))
     return [v for v in vs if v["case"].get("law") == case.get("law")]
